@@ -88,6 +88,17 @@ def main():
             meta = json.load(open(os.path.join(sd, "meta.json")))
         except Exception as e:
             meta = {"error_reading_agent_meta": str(e)}
+        dstmeta = os.path.join(dst, "meta.json")
+        if os.path.exists(dstmeta):
+            try:
+                old = json.load(open(dstmeta)).get("verification", {})
+                hist = old.pop("earlier_evaluations", [])
+                hist.append({"detected_by": old.get("detected_by"), "checks": old.get("checks")})
+                rec["earlier_evaluations"] = hist
+                if "tests" not in rec and "tests" in old:
+                    rec["tests"] = old["tests"]          # re-evaluation without repeating the test suite
+            except Exception:
+                pass
         meta["verification"] = rec
         json.dump(meta, open(os.path.join(dst, "meta.json"), "w"), indent=1)
     return 0
